@@ -39,6 +39,10 @@ def run(ctx):
     from .. import identity
     identity.check(ctx, rep, "C11", "R11.8", ["hb-ord", "hb-clone", "id-eq", "id-hash"])
     identity.check_keys(ctx, rep, "C11", "R11.9", ["fd-sets", "cluster"])
+    # "stays live at every evaluation" needs every member to BE evaluated at every pass (seed R3-C11-2)
+    from . import c12
+    c12.r12_2(ctx, rep, roles)
+    ctx.report.rules[-1].id = "R11.10(R12.2)"
     r11_4(ctx, rep, roles)
 
 
